@@ -28,6 +28,14 @@ def run(ctx):
     rule_RO(ctx, repo, eng, lg)
     rule_find_and_delete(ctx, repo)
     c04.common_hash_rule(ctx, repo, 'C03.H1')
+    # what is hashed is the serialisation of the scratch copy: its layout, field ranges and constructor ranges (C01),
+    # and the tokeniser FindAndDelete walks with (C08)
+    from . import c01, c08
+    from .. import escape as _esc
+    common.retag(ctx, 'C03.S1', c01.rule_L1, repo, eng, title='the scratch transaction serialises as the wire format')
+    common.retag(ctx, 'C03.S2', c01.rule_R1, repo, eng)
+    common.retag(ctx, 'C03.S3', _esc.rule_C01_E2, repo)
+    common.retag(ctx, 'C03.S4', c08.rule_raw_iter, repo)
     # the scratch copy is deep: what used to be an assumption is the C09 copy-constructor rule, run here
     from . import c09
     base, imm, mut = c09.classes(repo)
